@@ -359,6 +359,77 @@ func genScenario(rng *Rng, kind string) *Scenario {
 		// make an own task fail on its first attempt so that a retry command is issued
 		l := s.scripts[s.tasks[0].id+"/run"]
 		l[0].outcome = 1
+	case "pcfault":
+		// the status write of a pre-check verdict (skipped / blocked) fails in the store: nothing downstream of
+		// the task may start on the strength of a verdict that was never recorded
+		for i := range s.tasks {
+			if i == 0 || rng.Chance(1, 2) {
+				act := []entity.ActiveAction{entity.ActiveActionSkip, entity.ActiveActionSkip, entity.ActiveActionBlock}[rng.Intn(3)]
+				s.tasks[i].pre = entity.PreChecks{"c": {Act: act, Conditions: []entity.TaskCondition{{Source: entity.TaskConditionSourceVars, Key: "v", Op: entity.OperatorIn, Values: []string{"1", "2"}}}}}
+			}
+		}
+		s.faultNth = 1 + rng.Intn(2)
+		s.faultMatch = []string{":skipped", ":skipped", ":blocked"}[rng.Intn(3)]
+		s.faultMode = "fail"
+		if rng.Chance(1, 2) {
+			s.crashAt = []int{8 + rng.Intn(30)}
+		}
+	case "cancelfault":
+		// a cancelled in-flight task whose action returns nil is kept as success and tagged; that tag write fails
+		s.cancelAt = 2 + rng.Intn(12)
+		for k := rng.Intn(2); k > 0; k-- {
+			s.moreCancels = append(s.moreCancels, 3+rng.Intn(20))
+		}
+		s.retries = rng.Intn(2)
+		for i := range s.tasks {
+			l := s.scripts[s.tasks[i].id+"/run"]
+			l[0].waitCancel = true
+			l[0].outcome = 0
+		}
+		s.faultNth = 1
+		s.faultMatch = "suffix=:" // PatchTaskIns:<id>:<empty status> = the reason-only tag patch
+		s.faultMode = "fail"
+	case "sharerace":
+		// parallel tasks of one instance set different keys; their whole-dictionary saves are released in every order
+		s.tasks = s.tasks[:0]
+		nt := 3 + rng.Intn(3)
+		for i := 1; i <= nt; i++ {
+			t := taskSpec{id: fmt.Sprintf("t%d", i), action: "A"}
+			if i == nt && rng.Chance(1, 2) {
+				for j := 1; j < nt; j++ {
+					t.deps = append(t.deps, fmt.Sprintf("t%d", j))
+				}
+			}
+			s.tasks = append(s.tasks, t)
+		}
+		s.scripts = map[string][]phaseScript{}
+		for i := 1; i <= nt; i++ {
+			var ops []actOp
+			for k := 1 + rng.Intn(2); k > 0; k-- {
+				ops = append(ops, actOp{kind: 0, k: fmt.Sprintf("k%d_%d", i, k), v: fmt.Sprintf("t%d.run.0.%d", i, k)})
+			}
+			if i == nt {
+				ops = append(ops, actOp{kind: 1, k: "k1_1"})
+			}
+			s.scripts[fmt.Sprintf("t%d/run", i)] = []phaseScript{{ops: ops}, {ops: ops}, {ops: ops}}
+		}
+		s.execWorkers = 3 + rng.Intn(2)
+		s.retries, s.continues = 0, 0
+		if rng.Chance(1, 3) {
+			s.crashAt = []int{20 + rng.Intn(30)}
+		}
+	case "cmdfault":
+		// the write that re-arms a targeted task (UpdateTaskIns) fails once while a retry / continue command is executed
+		s.retries = 1 + rng.Intn(2)
+		s.continues = rng.Intn(2)
+		for i := range s.tasks {
+			if i == 0 || rng.Chance(1, 2) {
+				s.scripts[s.tasks[i].id+"/run"][0].outcome = 1
+			}
+		}
+		s.faultNth = 1 + rng.Intn(2)
+		s.faultMatch = "UpdateTaskIns"
+		s.faultMode = "fail"
 	case "fault":
 		s.faultNth = 1 + rng.Intn(6)
 		s.faultMatch = []string{"PatchTaskIns", "PatchDagIns", "ListTaskInstance", "UpdateTaskIns", "PatchTaskIns"}[rng.Intn(5)]
